@@ -24,6 +24,8 @@ A path that loops while moving the cursor without emitting a step is reported wi
          that direction's step stream short (or restarts it) when the two are interleaved on one searcher.
   SCANALL   find_last_match_before returns only what its rescan found: no path reaches the return without passing the
          `find_from(haystack, 0)` call (an early `return None` for some cursor, e.g. 0, hides the empty match there).
+  EXHAUST   a Reject path sets the exhaustion flag only if the step runs to the end of the haystack (forward) / to 0 (backward).
+  MARKER    RegexSearcher implements Searcher and ReverseSearcher but not the DoubleEndedSearcher marker.
   BOUND  a loop in the searcher that walks a byte offset by +-1 (to leave the inside of a UTF-8 sequence) tests
          `haystack.is_char_boundary(x)` on the very offset `x` it steps: testing another variable never moves (or never
          stops) the walk and the stored cursor / emitted bound lands inside a character.
@@ -96,6 +98,12 @@ def check(facts):
             if variant == "Match" and not empty and (1, flag) in p.cells and symex.show(p.cells[(1, flag)]) not in ("self.%s" % flag, "0", "false"):
                 problems.setdefault("done", []).append("a non-empty Match(%s, %s) path sets %s = %s" % (
                     symex.show(a)[:40], symex.show(bnd)[:40], flag, symex.show(p.cells[(1, flag)])[:20]))
+            # EXHAUST: a Reject step may declare the direction exhausted only if it runs to the end of the haystack
+            if variant == "Reject" and (1, flag) in p.cells and symex.show(p.cells[(1, flag)]) not in ("self.%s" % flag, "0", "false"):
+                want_end = "len(self.haystack)" if direction == "forward" else "0"
+                if symex.show(edge_out) != want_end:
+                    problems.setdefault("exhaust", []).append("a Reject(%s, %s) path sets %s although the step does not reach %s" % (
+                        symex.show(a)[:40], symex.show(bnd)[:40], flag, "the end of the haystack" if direction == "forward" else "offset 0"))
             # WHOLE
             src = symex.show(a) + symex.show(bnd)
             if variant == "Match":
@@ -113,6 +121,8 @@ def check(facts):
                     "whole": "the regex is not run on the whole haystack from the cursor",
                     "done": "the searcher declares itself exhausted after a non-empty match: the empty match still due at the end of the "
                             "haystack (find_iter reports it) is never emitted",
+                    "exhaust": "the searcher declares itself exhausted on the Reject that only covers the gap in front of a match: the match "
+                               "itself (an empty match at the end of the haystack, `\"abc\".find(/$/)`) is never emitted",
                     "cursor loop": "the cursor is moved in a loop without emitting a step"}[kind]
             r.fail(key, "%s (%s)" % (text, "; ".join(sorted(set(msgs))[:2])), facts.loc(fn))
         if okc:
@@ -172,6 +182,20 @@ def check(facts):
                 else:
                     r.ok(key)
                     nround += 1
+    # MARKER: the searcher keeps two independent cursors (OWNSTATE), so each end reports every match; it therefore must not
+    # carry the DoubleEndedSearcher marker, which promises std that next() and next_back() share the haystack between them
+    simpls = sorted(t["trait"].split("::")[-1] for t in facts.trait_impls if "pattern_impl::RegexSearcher" in t.get("self_ty", ""))
+    key = "RegexSearcher implements Searcher and ReverseSearcher only"
+    if not hasattr(facts, "trait_impls") or not simpls:
+        r.error("no trait impls of pattern_impl::RegexSearcher found (anchor lost)")
+    elif "DoubleEndedSearcher" in simpls:
+        r.fail(key, "RegexSearcher is marked DoubleEndedSearcher: std then interleaves next() and next_back() on one searcher (double-ended "
+                    "split, trim_matches) and both ends report the same match — overlapping steps, `get_unchecked(2..1)` in safe code",
+               facts.loc(find_fn(facts, "::next") or ""))
+    elif sorted(simpls) != ["ReverseSearcher", "Searcher"]:
+        r.fail(key, "unexpected searcher traits implemented for RegexSearcher: %s" % simpls, facts.loc(find_fn(facts, "::next") or ""))
+    else:
+        r.ok(key)
     # OWNSTATE
     own = {"::next": ("current_pos", "done"), "::next_back": ("reverse_pos", "reverse_done")}
     allf = {"current_pos", "done", "reverse_pos", "reverse_done"}
